@@ -31,6 +31,24 @@ goes through the full history; differential oracle: every observation
 (discovered constraints, closure verdicts, the verdict of every perturbation)
 equals the observation of that last table run from a fresh state.
 
+The table DEFINITION is a dimension of its own (layers tdef-1 / tdef-2):
+PRIMARY KEY as column or table constraint, composite in both column orders,
+WITHOUT ROWID, UNIQUE (per column / composite), NOT NULL, DEFAULT (the
+perturbing INSERT then leaves the column out), plain and unique indexes, and
+a view over the table (tdda accepts views wherever it accepts tables).  Only
+tables the definition admits are generated (models/db_spec.table_legal); a
+perturbing row that SQLite rejects, or stores as something else, is not a
+perturbation.  So is WHERE the database lives and HOW the caller's writes
+reach it (layer txn): in memory or in a file opened by path; the perturbing
+row committed, left uncommitted on the very connection that is handed to
+verify_db_table (tdda's connector opens connections in sqlite3's default
+implicit-transaction mode, so this is what "INSERT, then verify" does),
+written through a second connection, the table's own rows uncommitted at
+discovery, or an autocommit connection.  "Adding a row" in the statement
+carries no transaction condition: a row the connection sees is in the table.
+Oracle: the same clauses, plus every observation equals that of the same
+table in a committed in-memory database.
+
 Other verdicts after a perturbation are unconstrained.  Perturbations whose
 effect the documentation leaves open are executed but only counted
 (unspecified).
@@ -255,7 +273,17 @@ class C08(Check):
             'column names, types, order or only data x {new database, '
             'DROP+CREATE (thorough: + first connection left open)} x rex '
             'off/on, compared observation by observation with the last '
-            'table run from a fresh process image')
+            'table run from a fresh process image; txn layer: one column x '
+            '5 types x 0..2 rows over the reduced alphabets x {:memory:, '
+            'file} x {perturbing row uncommitted on tdda\'s connection, '
+            'table rows uncommitted too, autocommit connection, second '
+            'connection} (7 combinations), also compared with the committed '
+            'in-memory run; tdef layers: one column (7 types x 0..3 rows, '
+            'reduced alphabets) x 9 table definitions and two columns (16 '
+            'type pairs of INTEGER/REAL/TEXT/DATETIME (thorough: all 49) x '
+            '0..2 rows as multisets) x 10 (thorough 11) table definitions '
+            '(keys, UNIQUE, NOT NULL, DEFAULT, WITHOUT ROWID, indexes, view), only '
+            'tables the definition admits')
     assumptions = [
         'SQLite only (in-memory database through tdda\'s own connector); '
         'table name fixed to "t"; column names never contain a double quote '
@@ -282,6 +310,19 @@ class C08(Check):
         'violation signatures name the features whose removal makes the '
         'symptom vanish (re-execution of reduced cases), not the exception '
         'text',
+        'a row INSERTed on the connection handed to tdda and not yet '
+        'committed counts as added to the table (the statement has no '
+        'transaction condition and the connection sees the row); that tdda '
+        'leaves the caller\'s open transaction alone is NOT demanded: if '
+        'uncommitted rows have vanished after a tdda call the case is '
+        'counted unspecified and only the differential clause (same '
+        'observations as the committed run) speaks',
+        'file databases are opened with PRAGMA synchronous=OFF (no fsync '
+        'per commit); table definitions: no CHECK, COLLATE, generated '
+        'columns, foreign keys or TEMP objects; a view is SELECT * over '
+        'the table and counts as a table (tdda\'s existence check accepts '
+        'views); SQLite itself is the judge of which perturbing rows a '
+        'definition admits',
     ]
 
     def hashseeds(self, tier, verif_seed):
@@ -423,6 +464,8 @@ class C08(Check):
         elif layer == 'tdef-2':
             decls = DECLS if thorough else TDEF2_DECLS
             for tdef in TDEFS2:
+                if not thorough and tdef['id'] == 'index(b,a)':
+                    continue      # quick: tdef-1 has the plain index
                 for da in decls:
                     for db_ in decls:
                         cols = [['c', da], ['my col', db_]]
